@@ -552,16 +552,25 @@ func (x *Exec) verifyInlineLit(lit *ast.FuncLit, st *State, params, results []st
 					continue
 				}
 			}
-			if strings.HasPrefix(en.Prop, "path:") {
-				// the clause applies to the literals created on generator paths with this label
-				want := strings.TrimPrefix(en.Prop, "path:")
-				hit := false
-				for _, lab := range st.trace {
-					if lab == want {
-						hit = true
+			if strings.HasPrefix(en.Prop, "path:") || strings.HasPrefix(en.Prop, "nopath:") {
+				// the clause applies to the literals created on generator paths with (path:L) / without
+				// (nopath:L) these labels; several tags are separated by ';'
+				applies := true
+				for _, tag := range strings.Split(en.Prop, ";") {
+					tag = strings.TrimSpace(tag)
+					neg := strings.HasPrefix(tag, "nopath:")
+					want := strings.TrimPrefix(strings.TrimPrefix(tag, "nopath:"), "path:")
+					hit := false
+					for _, lab := range st.trace {
+						if lab == want {
+							hit = true
+						}
+					}
+					if hit == neg {
+						applies = false
 					}
 				}
-				if !hit {
+				if !applies {
 					continue
 				}
 			}
@@ -591,7 +600,7 @@ func (x *Exec) verifyInlineLit(lit *ast.FuncLit, st *State, params, results []st
 			if okind == "canary" {
 				ob.MustFail = true
 			}
-			if en.Prop != "" && !strings.HasPrefix(en.Prop, "local:") && !strings.HasPrefix(en.Prop, "mode:") && !strings.HasPrefix(en.Prop, "path:") {
+			if en.Prop != "" && !strings.HasPrefix(en.Prop, "local:") && !strings.HasPrefix(en.Prop, "mode:") && !strings.HasPrefix(en.Prop, "path:") && !strings.HasPrefix(en.Prop, "nopath:") {
 				ob.Prop = en.Prop
 			}
 		}
